@@ -54,7 +54,9 @@ isal_self_tests(void)
 
         ret |= _sha_self_tests();
 
-        asm_set_self_tests_status(ret);
+        /* Only SELF_TEST_DONE_AND_OK (0) or SELF_TEST_DONE_AND_FAIL (1) may be published:
+         * any other word is read by asm_check_self_tests_status() as "not done" */
+        asm_set_self_tests_status(ret != 0);
 
         if (ret == 0)
                 return 0;
